@@ -36,6 +36,9 @@ def check(ctx):
         if m is not None and matcher_names(ctx.repo, ctx.res, m):
             funcs.append(m)
     stream.r7_guard_dominance(ctx, funcs)
+    from rules import independence
+    independence.r28_functions(ctx, [('dataflows.helpers.iterable_loader:iterable_loader.handle_iterable',
+                                      {'mode': 'dict / list mode fixed by the first item and asserted for every later item'})])
     # 5. unique names
     stream.r27_name_uniqueness(ctx)
     run.trusted += ['LF1', 'LF8 tableschema integer rejects non-integral floats',
